@@ -195,6 +195,7 @@ func VerifH_C10_rowside() {
 		symAssert(vIns(w, tre, int64(1), int64(8), nil) == nil, "reinsert-ok")
 		vis, err := vHas(w, int64(1))
 		symAssert(err == nil && vis, "reclaimed-key-can-be-inserted-again")
+		w.Tree.Root.Cancel() // not kept
 	} else {
 		symAssert(raw == 2, "kept-entry-is-still-stored")
 	}
